@@ -67,7 +67,7 @@ def trace_validate(res, name, n_coroutines, n_traces, n_calls):
     res.sample({'recorded_schedule': [[e['op'], e['arg']] for e in traces[0]['events'][:12]], 'scripts': {g: [list(x) for x in s] for g, s in S.items()}})
     bad = copy.deepcopy(traces[:1])
     k = next((i for i, e in enumerate(bad[0]['events']) if e['log']), None)
-    if k is not None:
+    if k is not None and not rej:       # (a rejected recording is reported as it is: the self-test needs a sound trace)
         bad[0]['events'][k]['log'] = bad[0]['events'][k]['log'][:-1]
         r2 = tracecheck.validate(res, gen, name + '-corrupted', bad, consts, overrides=ov)
         res.cov['trace_validation'][name]['corrupted_trace_rejected_at_event'] = r2[0][1] if r2 else None
